@@ -15,7 +15,8 @@ META = dict(
               "parsedate_to_datetime / datetime.now replaced by contract stubs: text parses to an UNBOUNDED solver integer "
               "or to a date (fake aware/naive datetime at a solver-real instant) or to garbage, parsedate may raise "
               "ValueError/OverflowError (each kind has a concrete witness string that makes the real function raise it); "
-              "retry_after attribute of kind {unbounded int, real, NaN, +-inf, bool, str, bytes, list, None, absent}; header "
+              "the same date header classified a second time after a solver-real delay; every hint is fed to the real "
+              "retry_after_or closure; retry_after attribute of kind {unbounded int, real, NaN, +-inf, bool, str, bytes, list, None, absent}; header "
               "containers: dict with exact / lower / mixed-case key, object with get(), object with get()+items(), list "
               "of pairs, None, get() that raises, response.headers; honouring: Retry/AsyncRetry run with "
               "retry_after_or(jitter_s solver real) and a solver-real hint, attempt duration and deadline",
@@ -32,7 +33,7 @@ META = dict(
 GOALS = ["l1_digit_string", "l1_garbage_none", "l2_huge_int_no_hint", "l2_int_exact", "l2_negative_int_clamped",
          "l2_date_future", "l2_date_past_zero", "l2_parsedate_overflow", "l2_parsedate_valueerror", "attr_int", "attr_nan",
          "attr_str", "container_lower_key", "container_mixed_case", "container_pairs", "container_raising_get",
-         "response_headers", "honour_hint", "honour_capped_by_remaining", "not_rate_limit_no_hint"]
+         "response_headers", "honour_hint", "honour_capped_by_remaining", "not_rate_limit_no_hint", "l2_same_date_twice", "hint_fed_to_strategy"]
 FLOAT_LIMIT = 2 ** 1024 - 2 ** 970
 WITNESS = {"ValueError": "junk", "OverflowError": "Mon, 01 Jan 99999999999999999999 00:00:00 GMT"}
 
@@ -188,10 +189,13 @@ def h_l2(sym, params):
             raise {"ValueError": ValueError, "OverflowError": OverflowError}[pexc]("stub")
         raise ValueError("not a date")
 
+    later = sym.real("later", lo=0) if kind == "date" else 0
+    clock = [now_ts]
+
     class FakeDatetime:
         @staticmethod
         def now(tz=None):
-            return FakeDT(now_ts, tz)
+            return FakeDT(clock[0], tz)
 
     e = E429()
     if src == "header":
@@ -203,10 +207,15 @@ def h_l2(sym, params):
     saved = {k: H.__dict__.get(k, None) for k in ("int", "float", "parsedate_to_datetime", "datetime")}
     FakeInt.impl, FakeFloat.impl = staticmethod(fake_int), staticmethod(fake_float)
     H.int, H.float, H.parsedate_to_datetime, H.datetime = FakeInt, FakeFloat, fake_parsedate, FakeDatetime
+    r_again = None
     try:
         try:
             r = http_retry_after_classifier(e)
             exc = None
+            if kind == "date":
+                # the same header seen again after `later` seconds: the hint must be recomputed against the new instant
+                clock[0] = now_ts + later
+                r_again = http_retry_after_classifier(e)
         except Exception as x:  # noqa
             r, exc = None, x
     finally:
@@ -222,6 +231,11 @@ def h_l2(sym, params):
         ok, v = outcome_ok(r)
         if not ok:
             verdict = ("bad_hint", f"{src}/{kind}: retry_after_s={v!r}")
+        elif kind == "int" and v is not None and isinstance(v, int) and not isinstance(v, bool) and v >= FLOAT_LIMIT:
+            # an integer hint beyond the float range cannot be consumed by any float-based strategy
+            # (math.isfinite / float() raise OverflowError); the statement promises a number of seconds only
+            # for integers within float range
+            verdict = ("huge_int_hint", "a decimal integer >= 2**1024 - 2**970 was handed on unchanged as an int hint")
         elif kind == "int":
             if -FLOAT_LIMIT < n < FLOAT_LIMIT:
                 exp = n if n > 0 else 0
@@ -238,6 +252,14 @@ def h_l2(sym, params):
                 verdict = ("date_delta", f"HTTP-date at {date_ts}, now {now_ts}: gave {v!r}, expected {exp}")
             sym.cover("l2_date_future", d > 0)
             sym.cover("l2_date_past_zero", d < 0)
+            if verdict is None:
+                ok2, v2 = outcome_ok(r_again)
+                d2 = date_ts - (now_ts + later)
+                exp2 = d2 if d2 > 0 else 0
+                if not ok2 or v2 is None or v2 != exp2:
+                    verdict = ("date_delta_second_call", f"the same HTTP-date seen again {later}s later gave {v2!r}, expected {exp2} "
+                                                         f"(first call gave {v!r})")
+                sym.cover("l2_same_date_twice", later > 0)
         elif kind in ("garbage", "parsedate_raises"):
             if v is not None:
                 verdict = ("garbage_hint", f"garbage text gave a hint {v!r}")
@@ -246,6 +268,17 @@ def h_l2(sym, params):
         elif kind == "num":
             sym.cover("attr_int", nk == "int")
             sym.cover("attr_nan", nk == "nan")
+    if verdict is None and exc is None and isinstance(r, Classification):
+        # whatever hint the classifier hands on must be usable by retry_after_or (unstubbed)
+        from redress.strategies import BackoffContext
+        try:
+            s_ = retry_after_or(lambda ctx: 1.0, jitter_s=0.0)(
+                BackoffContext(attempt=1, classification=r, prev_sleep_s=None, remaining_s=None, cause="exception"))
+            if isinstance(s_, float) and s_ != s_ or s_ < 0:
+                verdict = ("hint_unusable", f"retry_after_or returned {s_!r} for the hint {r.retry_after_s!r}")
+        except Exception as x:  # noqa
+            verdict = ("hint_unusable", f"retry_after_or raised {x!r} for the hint {r.retry_after_s!r:.60} ({src}, {kind})")
+        sym.cover("hint_fed_to_strategy")
     if src == "attr_str" and verdict is None:
         sym.cover("attr_str")
     if verdict is not None and not sym.symbolic:
@@ -266,6 +299,15 @@ def h_l2(sym, params):
             try:
                 r2 = http_retry_after_classifier(e2)
                 ok2, v2 = outcome_ok(r2)
+                if verdict[0] == "huge_int_hint":
+                    from redress.strategies import BackoffContext
+                    try:
+                        retry_after_or(lambda ctx: 1.0, jitter_s=0.0)(
+                            BackoffContext(attempt=1, classification=r2 if isinstance(r2, Classification) else Classification(klass=EC.RATE_LIMIT),
+                                           prev_sleep_s=None, remaining_s=None, cause="exception"))
+                        return None  # the real hint is usable by retry_after_or: not reproduced
+                    except Exception as x:  # noqa
+                        return (verdict[0], f"Retry-After of {len(str(n))} digits gives a hint on which retry_after_or raises {x!r}")
                 if verdict[0] == "int_not_exact":
                     exp2 = float(max(n, 0)) if -FLOAT_LIMIT < n < FLOAT_LIMIT else None
                     if ok2 and (exp2 is None or v2 == exp2):
